@@ -150,6 +150,11 @@ pub fn run(prop: &str, tier: Tier) -> i32 {
         "C16" => scenarios::c16(tier),
         _ => panic!("no e1 scenarios for {}", prop),
     };
+    // debugging aid: VERIF_E1_ONLY=<substring> restricts the run to matching scenarios
+    let scns: Vec<Scenario> = match std::env::var("VERIF_E1_ONLY") {
+        Ok(f) if !f.is_empty() => scns.into_iter().filter(|s| s.name.contains(&f)).collect(),
+        _ => scns,
+    };
     let t = explore_all(&rep, scns, dfs);
     let mut extra = vec![];
     if prop == "C05" {
